@@ -579,6 +579,81 @@ pub fn waiter_scenario(w: Waiter, items: usize, fail: bool, bound: u32, max_exec
   }
 }
 
+// ----------------------------------------------------------- flattening (C05 / C10)
+
+/// outer subject emitting hot inner subjects through merge_all_threads(limit):
+/// inner 0 is already running; one thread delivers inner 1 (and optionally
+/// inner 2) and completes the outer, another drives and completes inner 0.
+/// Afterwards the remaining inners are driven and completed sequentially.
+pub fn flat_scenario(prop: &str, limit: usize, n_inner: usize, bound: u32, max_execs: u64) -> Scenario {
+  let name = format!("merge_all_threads({limit}) over {n_inner} hot inners: outer delivers || inner 0 completes c<={bound}");
+  let prop = prop.to_string();
+  Scenario {
+    name,
+    sig: format!("merge_all_threads({limit})"),
+    bound,
+    max_execs,
+    body: Arc::new(move |ctx: &Arc<Ctx>, out: &mut Out| {
+      let outer = SubjectThreads::<usize, Er>::default();
+      let inners: Vec<Subj> = (0..n_inner).map(|_| Subj::default()).collect();
+      let table = inners.clone();
+      let p0 = TProbe::new("p0", ctx);
+      let _u = outer
+        .clone()
+        .map(move |i: usize| table[i].clone())
+        .merge_all_threads(limit)
+        .actual_subscribe(p0.clone());
+      outer.clone().next(0);
+      let mut o2 = outer.clone();
+      let t1 = shuttle::thread::spawn(move || {
+        for i in 1..n_inner {
+          o2.next(i);
+        }
+        o2.complete();
+      });
+      let mut s0 = inners[0].clone();
+      let t2 = shuttle::thread::spawn(move || {
+        s0.next(100);
+        s0.complete();
+      });
+      t1.join().unwrap();
+      t2.join().unwrap();
+      for (i, s) in inners.iter().enumerate().skip(1) {
+        let mut s = s.clone();
+        s.next(100 + i as Item);
+        s.complete();
+      }
+      let got = p0.notes();
+      // every inner was subscribed before its item was emitted, inner 0 before
+      // the threads started: each item exactly once, then completion
+      let mut exp: Vec<Note> = (0..n_inner).map(|i| Note::N(100 + i as Item)).collect();
+      exp.push(Note::C);
+      let mut sorted = got.clone();
+      sorted.sort_by_key(|n| match n {
+        Note::N(v) => *v,
+        _ => i64::MAX,
+      });
+      if sorted != exp || got.last() != Some(&Note::C) {
+        ctx.fail(
+          format!("{prop}:flatten-lost-or-duplicated:merge_all_threads"),
+          format!("limit {limit}: expected each of {n_inner} inner items once and then completion, got [{}]", fmt_notes(&got)),
+        );
+      }
+      {
+        let mut v = ctx.viol.lock().unwrap();
+        for x in v.iter_mut() {
+          if x.class == "overlap" {
+            x.class = format!("{prop}:overlap:merge_all_threads");
+          }
+        }
+      }
+      out.delivered = got.len() as u64;
+      out.note(&got);
+      out.trace.push(format!("p0 [{}]", fmt_notes(&got)));
+    }),
+  }
+}
+
 // ----------------------------------------------------------- plans
 
 pub struct Plan {
@@ -676,6 +751,9 @@ pub fn plan(prop: &str, tier: Tier) -> Option<Plan> {
           sc.push(script_scenario("C10", shape, s, Oracle::Serialise, c, CAP));
         }
       }
+      for (limit, n) in [(1usize, 2usize), (1, 3), (2, 3)] {
+        sc.push(flat_scenario("C10", limit, n, c3.max(1) + if n == 2 { 1 } else { 0 }, CAP));
+      }
       for shape in [Shape::Share, Shape::Finalize] {
         for s in [
           vec![vec![Op::NextA(1), Op::NextA(2), Op::CompleteA], vec![Op::Subscribe, Op::NextA(3)]],
@@ -699,6 +777,18 @@ pub fn plan(prop: &str, tier: Tier) -> Option<Plan> {
         rule: "real _threads code on the controlled runtime: shared SubjectThreads with every pair of scripts of <=2 calls from {next, complete, error, subscribe, unsubscribe} on two threads, every triple of single calls on three threads and selected 3-call scripts; merge/zip/combine_latest/with_latest_from/take_until/skip_until/sample/merge_all (_threads) with one thread per input and an unsubscribing / subscribing third party; share_threads, finalize_threads, observe_on_threads and delay_threads (every scheduled notification is its own pool task). Every schedule within the preemption bound (scheduling points: every MutArc lock/unlock, controlled atomics, spawn/join, wake-ups). Oracle: no callback entered while another thread is inside one, notification grammar, one common order across subscribers of one subject, every thread returns (deadlock / lost wake-up = abort reported by the runtime), no panic; non-trivial = something was delivered".into(),
         bounds: json!({"preemptions_two_threads": c2, "preemptions_three_threads": c3}),
         assumptions: vec!["sequentially consistent memory; futures' mpsc channel and AtomicWaker operations are indivisible steps".into()],
+      })
+    }
+    "C05" => {
+      let c = if q { 2 } else { 3 };
+      for (limit, n) in [(1usize, 2usize), (1, 3), (2, 3), (3, 3)] {
+        sc.push(flat_scenario("C05", limit, n, if n == 2 { c + 1 } else { c }, CAP));
+      }
+      Some(Plan {
+        scenarios: sc,
+        rule: "merge_all_threads(limit) over hot inner subjects, inner 0 already running: one thread delivers the remaining inners and completes the outer while another drives and completes inner 0; afterwards the other inners are driven and completed; every schedule within the preemption bound; oracle: every inner item exactly once and then completion (a queued inner that is never started, or started twice, shows as a lost / duplicated item or a missing completion), no overlapping callbacks, nothing blocks".into(),
+        bounds: json!({"preemptions": c}),
+        assumptions: vec!["sequentially consistent memory".into()],
       })
     }
     "C06" => {
